@@ -64,6 +64,8 @@ type aApp struct {
 	Desc      string      `json:"desc,omitempty"`   // @description
 	Server    string      `json:"server,omitempty"` // @env.1.url
 	Style     string      `json:"style"`            // "sysl": hand-written style; "imported": header names via name="..", numeric return codes
+	Long      string      `json:"long,omitempty"`   // the long name: App "long name":
+	Attrs     []aAttr     `json:"attrs,omitempty"`  // further application attributes (info stream)
 }
 
 var (
@@ -505,7 +507,11 @@ func typeText(t aType) string {
 }
 
 func renderApp(b *strings.Builder, a aApp) {
-	fmt.Fprintf(b, "%s:\n", a.Name)
+	if a.Long != "" {
+		fmt.Fprintf(b, "%s %q:\n", a.Name, a.Long)
+	} else {
+		fmt.Fprintf(b, "%s:\n", a.Name)
+	}
 	if a.Version != "" {
 		fmt.Fprintf(b, "    @version = %q\n", a.Version)
 	}
@@ -515,6 +521,7 @@ func renderApp(b *strings.Builder, a aApp) {
 	if a.Server != "" {
 		fmt.Fprintf(b, "    @env.1.url = %q\n", a.Server)
 	}
+	renderAttrs(b, a)
 	if len(a.Types) == 0 && len(a.Endpoints) == 0 {
 		b.WriteString("    ...\n")
 	}
